@@ -168,6 +168,17 @@ ada_really_inline uint64_t try_parse_ipv4_avx512(const char* data,
   } else {
     return ipv4_fast_fail;
   }
+  // The trusted converter below assumes four non-empty parts of at most three
+  // digits: reject a leading dot, two adjacent dots, a dot at the end (after
+  // the optional trailing dot was stripped) and runs of more than three
+  // digits, e.g. "10..2.3", "1.2.3..", "1234.1.1.1".
+  const unsigned dots = static_cast<unsigned>(is_dot);
+  const unsigned digits = static_cast<unsigned>(is_digit);
+  if ((dots & 1u) != 0 || (dots & (dots >> 1)) != 0 ||
+      ((dots >> (effective_len - 1)) & 1u) != 0 ||
+      (digits & (digits >> 1) & (digits >> 2) & (digits >> 3)) != 0) {
+    return ipv4_fast_fail;
+  }
   // Convert from a tiny stack copy so trusted peeks stay in-bounds.
   alignas(16) char buf[16]{};
   std::memcpy(buf, data, effective_len);
